@@ -8,7 +8,8 @@ use fancy_regex::Regex;
 use serde_json::json;
 use std::collections::BTreeMap;
 
-const LIMITS: [usize; 8] = [0, 1, 2, 3, 5, 10, 100, 1_000_000];
+// (the last three: values that do not fit 32 bits must not be truncated into small ones)
+const LIMITS: [usize; 11] = [0, 1, 2, 3, 5, 10, 100, 1_000_000, 1 << 32, (1 << 32) + 7, usize::MAX];
 const STEP_CAP: u64 = 5_000_000;
 const BT_ERR: &str = "RuntimeError(BacktrackLimitExceeded)";
 const SO_ERR: &str = "RuntimeError(StackOverflow)";
@@ -340,7 +341,7 @@ pub fn run(ctx: &Ctx) -> Outcome {
     acc.merge(efficacy(ctx, &patterns));
     let mut out = Outcome::new(acc);
     out.distinct_nontrivial = out.acc.distinct;
-    out.rule = format!("{}{}; x all {} texts over 1-4 byte characters up to length 3. Per (pattern, text): run with the default limit, read backtracks B / VM steps S through the hook, then (1) for L in {{0,1,2,3,5,10,100,10^6}} and the exact thresholds L = B and L = B-1: L >= B => same answer, L < B => BacktrackLimitExceeded or the same answer; (2) S <= (B+1)*256*|prog|*(chars+2)*prod(1+count), enforced online by a VM step cap of {} so a non-terminating run is observed as a cap hit; (3) if the reference explores the case within 5000 steps the default-limit run must not report StackOverflow / BacktrackLimitExceeded. (4) hook invariant on every run: no alternative is resumed without having been counted against the limit; (5) limit efficacy on long texts: {} catastrophic family patterns (ambiguous cores (?:a|aa){{n}}, (?:a(?=)|a){{n}}, split and lazy counted variants, n = 18 / 22, x 16 tails that fail through a different instruction each: negative / positive look-ahead and look-behind, literal, class delegate, \\b, $, \\z, atomic group, unset backreference, group condition, \\G) on a^(2n+3), and a seeded sample of the space on 5 texts of 20-26 characters, each under backtrack limits 100 and 5000: the run must end with BacktrackLimitExceeded or the answer after <= (min(B, L)+2)*K steps (families: K = 8*|prog|*(chars+2); sample: K = 64*|prog|*(chars+2)^(1+look-around depth)*prod(1+count)), step cap {}. Non-trivial: distinct VM patterns with B >= 1 on some text for which limits fell on both sides of B.", sp.describe, if ctx.tier == Tier::Quick { " + a seeded twelfth of the 4-node trees" } else { "" }, texts.len(), STEP_CAP, n_fam, EFF_CAP);
+    out.rule = format!("{}{}; x all {} texts over 1-4 byte characters up to length 3. Per (pattern, text): run with the default limit, read backtracks B / VM steps S through the hook, then (1) for L in {{0,1,2,3,5,10,100,10^6,2^32,2^32+7,usize::MAX}} and the exact thresholds L = B and L = B-1: L >= B => same answer, L < B => BacktrackLimitExceeded or the same answer; (2) S <= (B+1)*256*|prog|*(chars+2)*prod(1+count), enforced online by a VM step cap of {} so a non-terminating run is observed as a cap hit; (3) if the reference explores the case within 5000 steps the default-limit run must not report StackOverflow / BacktrackLimitExceeded. (4) hook invariant on every run: no alternative is resumed without having been counted against the limit; (5) limit efficacy on long texts: {} catastrophic family patterns (ambiguous cores (?:a|aa){{n}}, (?:a(?=)|a){{n}}, split and lazy counted variants, n = 18 / 22, x 16 tails that fail through a different instruction each: negative / positive look-ahead and look-behind, literal, class delegate, \\b, $, \\z, atomic group, unset backreference, group condition, \\G) on a^(2n+3), and a seeded sample of the space on 5 texts of 20-26 characters, each under backtrack limits 100 and 5000: the run must end with BacktrackLimitExceeded or the answer after <= (min(B, L)+2)*K steps (families: K = 8*|prog|*(chars+2); sample: K = 64*|prog|*(chars+2)^(1+look-around depth)*prod(1+count)), step cap {}. Non-trivial: distinct VM patterns with B >= 1 on some text for which limits fell on both sides of B.", sp.describe, if ctx.tier == Tier::Quick { " + a seeded twelfth of the 4-node trees" } else { "" }, texts.len(), STEP_CAP, n_fam, EFF_CAP);
     out.assumptions = vec!["the step bound K is a calibrated constant with >= two orders of magnitude of slack over every legitimate run observed (maxima.steps/bound-ppm reports how close this run came, in millionths)".into()];
     let et = out.acc.get("exact-threshold-cases");
     let vm = out.acc.get("route:vm");
